@@ -24,6 +24,9 @@
     (thorough 8) over {a,y,7,2} whose last character ranges over the whole base32 alphabet (exhaustive check
     of the non-canonical-tail rule for every length class).
 
+(d) GLUED STRINGS.  For every ordered pair of valid capabilities A, B of the 18 kinds: A+B, A+":"+B,
+    prefix(A)+B, prefix(A)+"junk:"+B, prefix(A)+":"+B.
+
 Oracle (no more than the statement): a string accepted as a known kind must lie in the
 reference grammar (strict: canonical base32, canonical decimal, nothing after the last
 field except MDMF extension fields, one optional ro./imm. prefix), must be accepted as the
@@ -361,6 +364,18 @@ def run(tier, seed):
                 fixed.add(b"ro." + m)
                 fixed.add(b"imm." + m)
     fixed.update(short_strings(tier))
+    # (d) GLUED strings: for every ordered pair of valid capabilities A (kind a), B (kind b):  A + B,
+    # A + ":" + B, prefix(a) + B, prefix(a) + "junk:" + B  - a parser that anchors its pattern only at the
+    # end of the string reads the tail and forgets the rest
+    bases = {name: L.build(name, base_fields(L.KINDS[name].layout, "counting", seed)) for name in L.KIND_NAMES}
+    glued = set()
+    for a_name, A in bases.items():
+        pa = L.KINDS[a_name].prefix
+        for b_name, B in bases.items():
+            for g in (A + B, A + b":" + B, pa + B, pa + b"junk:" + B, pa + b":" + B):
+                glued.add(g)
+    glued -= set(bases.values())
+    fixed.update(glued)
     fixed = sorted(fixed, key=lambda s: (len(s), s))
     seeded = []
     for name in L.KIND_NAMES:
@@ -369,7 +384,7 @@ def run(tier, seed):
     items = [("fixed", s) for s in fixed] + [("rt", n, f) for (n, f) in rt] + [("seeded", s) for s in seeded]
     res = common.pmap(_chunk, items)
     spaces = ["%d capability objects round-tripped" % len(rt),
-              "%d distinct strings = single-edit closure of 2 fixed bases x 18 kinds, bare and behind ro./imm., + short-string families" % len(fixed),
+              "%d distinct strings = single-edit closure of 2 fixed bases x 18 kinds, bare and behind ro./imm., + short-string families + %d glued strings (two valid capabilities, or a kind prefix and a valid capability, concatenated)" % (len(fixed), len(glued)),
               "%d strings from the single-edit closure of the seed-derived base (not de-duplicated, not counted as distinct)" % len(seeded)]
     if tier == "thorough":
         res.merge(common.pmap(_double_chunk, first_level, chunks=common.NWORKERS * 16))
